@@ -516,6 +516,12 @@ func run(c *vm.Ctx) {
 		}
 	}
 	_ = evals
+	// padded encodings of every length, streams of values through one source, goroutines with values of their own (extra.go)
+	if c.Shard == 0 {
+		paddedForms(c)
+	}
+	streams(c, c.Rand("streams"))
+	concurrentUse(c, c.Rand("concurrent"))
 	c.CoverN("varint.enc.buffer-of-Len-bytes", tally.tightInt)
 	c.CoverN("varlong.enc.buffer-of-Len-bytes", tally.tightLong)
 	c.CoverN("varint.enc.writeto.all-writes-concatenated", tally.sinkInt)
